@@ -166,6 +166,9 @@ class Executor:
                 k = v.kinds[0]
                 if k == "list":
                     return z3.And(v.z != 0, st.list_len(v.z) > 0)
+                if k == "set":
+                    x = z3.Int("x!nonempty")
+                    return z3.And(v.z != 0, z3.Exists([x], st.dict_has(v.z, x)))
                 raise Unsupported(f"truthiness of {k}")
             h = self.spec.globals.get("__truthy__", {})
             if v.cls in h:
@@ -192,7 +195,8 @@ class Executor:
             text = ast.unparse(e)
             if text in self.bindings:
                 return [Res("val", self.bindings[text], st)]
-        hook = self.spec.globals.get("__expr__") if isinstance(e, (ast.ListComp, ast.GeneratorExp, ast.SetComp, ast.DictComp)) else None
+        hook = self.spec.globals.get("__expr__") if isinstance(e, (ast.ListComp, ast.GeneratorExp, ast.SetComp, ast.DictComp)) or (
+            isinstance(e, ast.Call) and any(isinstance(a, ast.Starred) for a in e.args) and self.spec.globals.get("__expr_calls__")) else None
         if hook is not None:
             # state-dependent model of one comprehension, identified by its exact source text (a change of the text un-binds it)
             v = hook(self, st, text or ast.unparse(e))
@@ -217,6 +221,13 @@ class Executor:
                         nxt.append((vals + [r.val], r.st))
             acc = nxt
         return acc, raises
+
+    def e_Yield(self, e, st):
+        """A `yield` in a @contextmanager generator: the code of the `with` body runs here; the contract models it with the `__yield__` hook."""
+        h = self.spec.globals.get("__yield__")
+        if h is None or e.value is not None:
+            raise Unsupported("yield outside a modelled context manager")
+        return h(self, st)
 
     def e_Constant(self, e, st):
         v = e.value
